@@ -165,6 +165,8 @@ def rule_no_delivery_on_failure(ctx):
                    "self._uri_to_ecls": {"com.err": ecls} if registered else {},
                    "ApplicationError.ENC_NO_PAYLOAD_CODEC": "ENC_NO_PAYLOAD_CODEC", "ApplicationError.ENC_DECRYPT_ERROR": "ENC_DECRYPT_ERROR",
                    "ApplicationError.ENC_TRUSTED_URI_MISMATCH": "ENC_TRUSTED_URI_MISMATCH"}
+            # the fallback class also as a VALUE (handed to a helper that calls it): the same answer as the call by name
+            env["exception.ApplicationError"] = Sym("class ApplicationError", methods={"__call__": (lambda *a_, **k_: default("exception.ApplicationError", list(a_), k_))})
             t = Tiny(env, default_call=default, inline_self=inline_private(ctx, bs, exclude=("_swallow_error",)))
             r = t.run(body)
             cell = f"codec {'active' if codec else 'absent'}, decode {outcome.replace('-', ' ')}, error URI {'registered' if registered else 'not registered'}"
